@@ -69,9 +69,10 @@ func consistent(r *schedStatsJSON) string {
 }
 
 // thread kinds: U = Update (blocked), V = Update (not filtered, other client),
-// F = hour rollover + flush, G = GET /control/stats, X = reset.
+// F = hour rollover + flush, G = GET /control/stats, X = reset, D = statistics
+// switched off through the legacy POST /control/stats_config {"interval":0}.
 var schedScenarios = [][]string{
-	{"U", "G"}, {"U", "V", "G"}, {"U", "F"}, {"F", "G"}, {"U", "F", "G"}, {"U", "X"}, {"U", "X", "G"}, {"X", "F"}, {"U", "V", "F"}, {"G", "G", "U"},
+	{"U", "G"}, {"U", "V", "G"}, {"U", "F"}, {"F", "G"}, {"U", "F", "G"}, {"U", "X"}, {"U", "X", "G"}, {"X", "F"}, {"U", "V", "F"}, {"G", "G", "U"}, {"D", "F"}, {"U", "D", "F"},
 	// C = clean shutdown (Close); the final check reopens the database: counts
 	// survive an hour rollover racing with the shutdown.
 	{"F", "C"}, {"U", "F", "C"},
@@ -91,6 +92,7 @@ func mkSchedBody(c *lib.Ctx, threads []string, pre int) func() vsync.Body {
 		nUpd, reset, closed := 0, false, false
 		// flushEnded: an iteration of the periodic flusher told its loop to end.
 		flushEnded := false
+		disabled := false
 		var fs []func()
 		for _, t := range threads {
 			switch t {
@@ -126,6 +128,11 @@ func mkSchedBody(c *lib.Ctx, threads []string, pre int) func() vsync.Body {
 			case "X":
 				reset = true
 				fs = append(fs, func() { _, _ = x.call(http.MethodPost, "/control/stats_reset", "") })
+			case "D":
+				// Switching the statistics off through the legacy endpoint clears
+				// them; they are switched on again before the final read.
+				reset, disabled = true, true
+				fs = append(fs, func() { _, _ = x.call(http.MethodPost, "/control/stats_config", `{"interval":0}`) })
 			}
 		}
 		return vsync.Body{
@@ -165,6 +172,11 @@ func mkSchedBody(c *lib.Ctx, threads []string, pre int) func() vsync.Body {
 					ign, _ := aghnet.NewIgnoreEngine(nil)
 					if err := x.open(stats.Config{Limit: time.Duration(initialLimit) * time.Hour, Enabled: true, Ignored: ign}); err != nil {
 						return "restart-failed: " + err.Error()
+					}
+				}
+				if disabled {
+					if code, body := x.call(http.MethodPost, "/control/stats_config", `{"interval":1}`); code != http.StatusOK {
+						return fmt.Sprintf("re-enable-failed: HTTP %d %s", code, body)
 					}
 				}
 				// After quiescence every update is counted exactly once (unless a reset ran).
